@@ -2105,6 +2105,22 @@ impl PeerConnection {
                 ice_conn.set_remote_rtcp_addr(Some(addr));
                 debug!("RTCP-MUX not detected, setting RTCP address to {}", addr);
             }
+
+            // The remote description was applied before this transport existed, so the
+            // SSRC it announces has to be handed to the latch here.
+            let expected_ssrc = {
+                let remote_desc = self.inner.remote_description.lock();
+                remote_desc.as_ref().and_then(|desc| {
+                    Self::bundle_tag_mid(desc)
+                        .as_ref()
+                        .and_then(|mid| desc.media_sections.iter().find(|s| s.mid == *mid))
+                        .or_else(|| desc.media_sections.first())
+                        .and_then(Self::remote_ssrc_from_section)
+                })
+            };
+            if let Some(ssrc) = expected_ssrc {
+                ice_conn.set_expected_ssrc(ssrc);
+            }
         }
 
         let srtp_required = self.config().transport_mode != TransportMode::Rtp;
